@@ -54,6 +54,10 @@ PRIORS_V2.update({
     "fulltime-discharge": v2_group(-1, power=40, soc=100),
     "fulltime-charge-745": v2_group(-7, power=-500 & 0xFFFF, soc=80, months=0x0FFF),
     "garbage": bytes.fromhex("632563256325632563256325"),
+    # groups limited to some months / days (every schedule field that the emulated-mode encoder might be tempted to keep)
+    "months-jan-feb": v2_group(-1, power=20, sh=8, eh=10, months=0x0003),
+    "months-745-some": v2_group(-7, power=200, sh=8, eh=10, months=0x0801),
+    "days-weekend-off": v2_group(0, power=20, sh=8, eh=10, days=0x41, soc=30, months=0x0100),
 })
 PRIORS_V1 = {
     "off": bytes.fromhex("3000300000640000"),
@@ -67,15 +71,10 @@ PRIORS_V1 = {
 
 
 def reset_shared_state():
-    """The setting definitions are class-level objects; put schedule_type back to what a fresh process has."""
-    import goodwe
-    from goodwe.sensor import EcoModeV2, PeakShavingMode, Schedule, ScheduleType
+    """The setting definitions are class-level objects that decoding mutates; put every one of them back to its
+    import-time state so that a case never depends on the cases executed before it."""
     from vlib import tables
-    for fam, tname, i, s in tables.all_sensors():
-        if isinstance(s, PeakShavingMode):
-            s.schedule_type = ScheduleType.PEAK_SHAVING
-        elif isinstance(s, Schedule):
-            s.schedule_type = ScheduleType.ECO_MODE
+    tables.restore_definitions()
 
 
 def build(variant, salt=0):
@@ -123,7 +122,7 @@ def run_mode_case(acc: Acc, case):
     if mode not in modes:
         return []
     pc = case["prior"]
-    prior_class = pc.split("-")[0] if pc.startswith("type") else ("fulltime-charge" if pc.startswith("fulltime-charge") else pc)
+    prior_class = pc.split("-")[0] if pc.startswith(("type", "months", "days")) else ("fulltime-charge" if pc.startswith("fulltime-charge") else pc)
     undecodable_prior = pc in ("garbage", "ones")
     key = "C19|%s|%s" % (fam, "emulated" if emulated else mode.name)
     try:
@@ -171,6 +170,8 @@ def run_mode_case(acc: Acc, case):
         if v2 and mode == OperationMode.ECO_CHARGE and soc != s:
             fails.append((key + "|group1-soc|prior=%s" % prior_class, "group 1 decodes to SoC %r, requested %r" % (soc, s), case))
         whole_day = (f["start_h"], f["start_m"], f["end_h"], f["end_m"]) == (0, 0, 23, 59) and f["day_bits"] in (127, -1)
+        if v2 and f["month_bits"] not in (0, 0x0FFF):
+            fails.append((key + "|group1-months|prior=%s" % prior_class, "group 1 is limited to months 0x%04x (registers %s)" % (f["month_bits"] & 0xFFFF, raw.hex()), case))
         if not whole_day or (f["on_off"] >= 0):
             fails.append((key + "|group1-not-fulltime|prior=%s" % prior_class, "group 1 %s is not an enabled 24/7 group" % raw.hex(), case))
         # the value the library itself reads back must agree
